@@ -14,6 +14,8 @@ import (
 	"path/filepath"
 	"regexp"
 	"runtime"
+	"runtime/debug"
+	"runtime/metrics"
 	"sort"
 	"strconv"
 	"strings"
@@ -138,6 +140,7 @@ type childSpec struct {
 	Out      string
 	Last     string
 	Seed     int64
+	Trace    bool // autopsy: record the instruction being executed before every step
 }
 
 type childViol struct {
@@ -268,6 +271,29 @@ func childMain(t *testing.T, specPath string) {
 		}
 	}()
 	mon := newMonitor()
+	heapSample := [1]metrics.Sample{{Name: "/memory/classes/heap/objects:bytes"}}
+	if spec.Trace {
+		tf, err := os.Create(spec.Last + ".trace")
+		if err == nil {
+			defer tf.Close()
+			var line [96]byte
+			traceStep = func(phase string, step, ip int, op opcode.Opcode) {
+				b := line[:0]
+				b = append(b, phase...)
+				b = append(b, ' ')
+				b = strconv.AppendInt(b, int64(step), 10)
+				b = append(b, ' ')
+				b = strconv.AppendInt(b, int64(ip), 10)
+				b = append(b, ' ')
+				b = append(b, op.String()...)
+				for len(b) < 95 {
+					b = append(b, ' ')
+				}
+				b = append(b, '\n')
+				_, _ = tf.WriteAt(b, 0)
+			}
+		}
+	}
 	obsMax := func(k string, v int) {
 		if int64(v) > res.Max[k] {
 			res.Max[k] = int64(v)
@@ -355,6 +381,13 @@ func childMain(t *testing.T, specPath string) {
 			}
 		}
 		curCase.Store(-1)
+		// a case that left a lot of garbage must not starve its neighbours of address space
+		metrics.Read(heapSample[:])
+		if heapSample[0].Value.Kind() == metrics.KindUint64 && heapSample[0].Value.Uint64() > 384<<20 {
+			runtime.GC()
+			debug.FreeOSMemory()
+			res.Obs["forced_collections_after_big_cases"]++
+		}
 		if o.Leak != nil {
 			res.Obs["abandoned_evaluation_stack_events"] += int64(o.Leaks)
 			res.Obs["violating_cases"]++
@@ -434,6 +467,50 @@ func crashSignature(log string) (sig string, inRepo bool) {
 type batch struct {
 	workload string
 	lo, hi   int
+}
+
+// autopsy re-runs one case alone in a fresh child with step tracing and reports
+// where the process died ("phase step offset opcode").
+func autopsy(bin, dir, workload string, idx int) (where string, reproduced bool) {
+	if idx < 0 {
+		return "", false
+	}
+	tag := fmt.Sprintf("autopsy-%s-%d", workload, idx)
+	spec := childSpec{Workload: workload, Lo: idx, Hi: idx + 1, Only: idx, Seed: ev.Seed(), Trace: true,
+		Out: filepath.Join(dir, tag+".out.json"), Last: filepath.Join(dir, tag+".last.json")}
+	sp := filepath.Join(dir, tag+".spec.json")
+	sb, _ := json.Marshal(&spec)
+	if os.WriteFile(sp, sb, 0o644) != nil {
+		return "", false
+	}
+	lf, err := os.Create(filepath.Join(dir, tag+".log"))
+	if err != nil {
+		return "", false
+	}
+	defer lf.Close()
+	cmd := exec.Command(bin, "-test.run", "^TestCheck$", "-test.timeout", "0")
+	cmd.Env = append(os.Environ(), "C12_CHILD="+sp, "GOMEMLIMIT=2GiB", "GOMAXPROCS=2", "GOTRACEBACK=all", "GOGC=400")
+	cmd.Stdout, cmd.Stderr = lf, lf
+	cmd.Dir = dir
+	done := make(chan error, 1)
+	if cmd.Start() != nil {
+		return "", false
+	}
+	go func() { done <- cmd.Wait() }()
+	var werr error
+	select {
+	case werr = <-done:
+	case <-time.After(5 * time.Minute):
+		_ = cmd.Process.Kill()
+		<-done
+		return "", false
+	}
+	tb, _ := os.ReadFile(spec.Last + ".trace")
+	where = strings.Join(strings.Fields(string(tb)), " ")
+	for _, f := range []string{spec.Out, sp, spec.Last, spec.Last + ".trace"} {
+		_ = os.Remove(f)
+	}
+	return where, werr != nil && where != ""
 }
 
 func TestCheck(t *testing.T) {
@@ -647,13 +724,28 @@ func TestCheck(t *testing.T) {
 						return
 					}
 				} else {
+					// autopsy: re-run the case alone, recording the instruction before each step
+					where, reproduced := autopsy(bin, dir, b.workload, badIdx)
 					if last.Witness == nil {
 						last.Witness = map[string]any{}
 					}
 					last.Witness["child_log"] = tail
+					last.Witness["died_at"] = where
 					mu.Lock()
 					run.Obs("process_fatal_errors", 1)
-					run.Violation(sig, last.CaseID, "the child process executing this script died with a process-fatal error (not recoverable by the VM's central recover)", last.Witness)
+					if reproduced {
+						kind := sig
+						if strings.Contains(sig, "out of memory") {
+							kind = "process-fatal:out-of-memory"
+						}
+						op := where
+						if f := strings.Fields(where); len(f) == 4 {
+							op = f[3]
+						}
+						run.Violation(kind+":during-"+op, last.CaseID, "the child process executing this script died with a process-fatal error (not recoverable by the VM's central recover); the case alone reproduces it in a fresh process at: "+where+" (phase, step, offset, opcode)", last.Witness)
+					} else {
+						run.Inconclusive("case %s killed its child (%s) but runs to completion alone in a fresh process: attributed to memory left over from neighbouring cases, not counted as a verdict", last.CaseID, sig)
+					}
 					mu.Unlock()
 				}
 			}
